@@ -62,7 +62,18 @@ def num_of(lit):
 
 _SA = [1, 2, 3]
 SHARED = {"sa": _SA, "sa[:2]": _SA[:2], "sa[:0]": [], "sa[1:]": _SA[1:], "sa[0:3]": _SA, "sa[:1]": [1], "[1, 2]": [1, 2], "[1, 2, 3]": [1, 2, 3],
-          "[]": [], "[2, 3]": [2, 3], "[1]": [1], "sm": {"a": 1}, '{"a": 1}': {"a": 1}, "[sa]": [_SA], "[sa[:2]]": [[1, 2]], "[[1, 2]]": [[1, 2]]}
+          "[]": [], "[2, 3]": [2, 3], "[1]": [1], "sm": {"a": 1}, '{"a": 1}': {"a": 1}, "[sa]": [_SA], "[sa[:2]]": [[1, 2]], "[[1, 2]]": [[1, 2]], "sn": [float("nan")], "[(0.0/0.0)]": [float("nan")], "[sn]": [[float("nan")]]}
+
+
+def struct_eq(a, b):
+    """structural equality with Go's == at the leaves: NaN equals nothing, also not itself"""
+    if isinstance(a, list) and isinstance(b, list):
+        return len(a) == len(b) and all(struct_eq(x, y) for x, y in zip(a, b))
+    if isinstance(a, dict) and isinstance(b, dict):
+        return a.keys() == b.keys() and all(struct_eq(a[k], b[k]) for k in a)
+    if isinstance(a, (list, dict)) or isinstance(b, (list, dict)):
+        return False
+    return a == b
 
 
 def impl_oracle(c):
@@ -96,9 +107,11 @@ def impl_oracle(c):
             out.append("same-type numbers %s == %s should be %s" % (va, vb, want))
     # containers compare structurally: views of one list are equal exactly when their contents are
     if va in SHARED and vb in SHARED:
-        want = SHARED[va] == SHARED[vb]
+        want = struct_eq(SHARED[va], SHARED[vb])
         if eq_ab != want:
-            out.append("containers compare structurally: %s == %s should be %s (sa = [1, 2, 3], sm = {\"a\": 1})" % (va, vb, want))
+            msg = "containers compare structurally: %s == %s should be %s (sa = [1, 2, 3], sm = {\"a\": 1}, sn = [NaN])" % (va, vb, want)
+            # the recorded finding: reflect.DeepEqual answers true for one and the same container without looking inside
+            out.append((msg, "nan-container-equals-itself") if eq_ab and not want and va == vb and va in ("sn", "[sn]") else msg)
     # nil equals only nil
     if (va == "nil") != (vb == "nil") and eq_ab:
         out.append("nil equals a non-nil value: %s == %s" % (va, vb))
